@@ -379,8 +379,14 @@ func (s *Service) doRouteResp(ctx context.Context, src, target, last boson.Addre
 		return 0
 	}
 	if resp != nil {
-		resp.Paths = s.routeTable.generatePaths(resp.Paths)
-		resp.UList = s.convUnderlayList(resp.UType, target, last, resp.UList)
+		// respForward calls this once per pending source with the same received message:
+		// extend a copy, otherwise every further source gets self appended once more.
+		resp = &pb.RouteResp{
+			Dest:  resp.Dest,
+			Paths: s.routeTable.generatePaths(resp.Paths),
+			UType: resp.UType,
+			UList: s.convUnderlayList(resp.UType, target, last, resp.UList),
+		}
 	} else if len(paths) > 0 {
 		resp = &pb.RouteResp{
 			Dest:  target.Bytes(),
